@@ -72,6 +72,13 @@ func pollute(root string, kind string, n int) error {
 		}
 	}
 	switch kind {
+	case "hidden-file":
+		return os.WriteFile(filepath.Join(aad, ".stale.swp"), []byte("junk\n"), 0o644)
+	case "hidden-dir":
+		if err := os.MkdirAll(filepath.Join(aad, ".old"), 0o755); err != nil {
+			return err
+		}
+		return os.WriteFile(filepath.Join(aad, ".old", "stale-profile"), []byte("profile stale-profile {\n}\n"), 0o644)
 	case "junk-file":
 		return os.WriteFile(filepath.Join(aad, fmt.Sprintf("zz-junk-%d", n)), []byte("junk\n"), 0o644)
 	case "stale-profile":
@@ -120,7 +127,7 @@ func pollute(root string, kind string, n int) error {
 	return fmt.Errorf("unknown pollution %s", kind)
 }
 
-var pollutions = []string{"junk-file", "stale-profile", "junk-dir", "dangling-symlink", "file-for-dir", "systemd-junk", "share-junk", "edited-profile", "readonly-file"}
+var pollutions = []string{"junk-file", "stale-profile", "junk-dir", "dangling-symlink", "file-for-dir", "systemd-junk", "share-junk", "edited-profile", "readonly-file", "hidden-file", "hidden-dir"}
 
 func c02RunHistory(h C02History) error {
 	want, err := freshManifest(h.Final)
